@@ -1,4 +1,6 @@
 import PallasVerif.Proofs.TxBuild
+import PallasVerif.Model.TxBuildEnc
+import PallasVerif.Proofs.Cbor
 /-!
 # C40 — Built transactions encode the staged content with a correct id
 
@@ -27,9 +29,12 @@ unbounded) and every staging value at all where no invariant is needed:
   quantities; `mint_asset` adds to the staged quantity; no zero quantity is ever written
   (`build_mint_no_zero`, `build_outputs_content` for output assets);
 * `build_content`, `build_outputs_content` — every other field is the staged one;
-* `build_id_is_hash_of_body_span` — model-level statement of the id clause (`H` and the encoder are
-  parameters: BLAKE2b-256 and the CBOR encoder are not modelled here; the harness recomputes the
-  hash over the body bytes it slices out of `tx_bytes` itself).
+* `build_id_concrete` — the id clause on bytes the model produces itself (`Model/TxBuildEnc.lean`:
+  body and witness set encoded by C06's schema interpreter over the *generated* Conway schemas): the
+  model's `tx_bytes` are one well-formed item whose first array element is the body's own
+  encoding, and the id is the Lean BLAKE2b-256 of exactly that span. The stream compares these
+  `tx_bytes` and ids with the implementation's, byte for byte, whenever no `HashMap` iteration
+  order enters them. (`build_id_is_hash_of_body_span` is the older, parametric form.)
 
 * `build_script_data_hash` — `script_data_hash` is present exactly with language views and a redeemer
   or witness datum, and equals BLAKE2b-256 of C08's `ScriptData` hash input over the witness set that
@@ -733,6 +738,46 @@ theorem build_id_is_blake2b256_of_body_span {Body Tx : Type} (encBody : Body →
     let b : Built Blake2b.Bytes Blake2b.Bytes := { txBytes := encTx t, txHash := Blake2b.blake2b256 (encBody (bodyOf t)) }
     b.txHash = Blake2b.blake2b256 (bodySpan b.txBytes) :=
   build_id_is_hash_of_body_span Blake2b.blake2b256 encBody encTx bodyOf bodySpan hspan t _ rfl
+
+/-! ## the id, concretely -/
+
+open PallasVerif.Cbor in
+/-- The id clause, concretely: whenever the model produces `tx_bytes` for a built transaction,
+    (1) those bytes are a single well-formed CBOR item — a 4-element array whose first element is the
+    body's own encoding (`bodySpan`, how a reader slices the body out of `tx_bytes`), and
+    (2) the reported id is the Lean BLAKE2b-256 (`Model/Blake2b.lean`) of exactly that span.
+    Body and witness set are encoded by C06's model of the derived encoders over the generated
+    Conway schemas. -/
+theorem build_id_concrete (t : BuiltTx) (bs : TxBuildEnc.B8) (h : TxBuildEnc.txBytes t = some bs) :
+    ∃ body, TxBuildEnc.bodyBytes t = some body ∧ TxBuildEnc.bodySpan bs = some body ∧
+      TxBuildEnc.txId t = some (Blake2b.blake2b256 body) := by
+  unfold TxBuildEnc.txBytes at h
+  cases hi : TxBuildEnc.txItem t with
+  | none => simp [hi] at h
+  | some it =>
+    simp only [hi] at h
+    split at h
+    · next hwf =>
+      cases h
+      unfold TxBuildEnc.txItem at hi
+      cases hb : TxBuildEnc.bodyItem t with
+      | none => simp [hb] at hi
+      | some b =>
+        cases hw : TxBuildEnc.witnessItem t with
+        | none => simp [hb, hw] at hi
+        | some w =>
+          cases ha : TxBuildEnc.auxField t with
+          | none => simp [hb, hw, ha] at hi
+          | some a =>
+            simp only [hb, hw, ha, Option.some.injEq] at hi
+            subst hi
+            refine ⟨b.encode, by simp [TxBuildEnc.bodyBytes, hb], ?_, by simp [TxBuildEnc.txId, TxBuildEnc.bodyBytes, hb]⟩
+            unfold TxBuildEnc.bodySpan
+            have hp := parseItem_encode (mkArray [b, w, mkBool true, a]) [] hwf
+            rw [List.append_nil] at hp
+            rw [hp]
+            rfl
+    · cases h
 
 /-! ## Non-vacuity -/
 section
